@@ -153,18 +153,22 @@ def toOutcome {α} : R α → Outcome α
   | .error .panic => .panic
   | .error .hang => .hang
 
+/-- the end of `Parse`: at least one row, `AddSequence` for each (its error ends the parse), alphabet step -/
+def build (o : POpts) (rows : List XRow) : R Aln :=
+  if rows.isEmpty then .error .error
+  else match rows.foldlM (fun (b : Bag) r => b.add r.1 r.2) { ignore := normIgnore o.ignore } with
+    | none => .error .error
+    | some bag =>
+      match bag.finish (normAlphabet o.alphabet) with
+      | none => .error .error
+      | some a => pure a
+
 def parseR (checksRowIndex : Bool) (o : POpts) (bs : Seq) : R Aln := do
   let (t, s) ← ({ inp := bs } : St).scan
   if t != .clustal then .error .error
   let (t, s) ← skipHeader (s.inp.length + 3) t s
   let ls ← loop checksRowIndex (s.inp.length + 3) t s {}
-  if ls.rows.isEmpty then .error .error
-  let bag ← match ls.rows.foldlM (fun (b : Bag) r => b.add r.1 r.2) { ignore := normIgnore o.ignore } with
-    | none => .error .error
-    | some b => pure b
-  match bag.finish (normAlphabet o.alphabet) with
-  | none => .error .error
-  | some a => pure a
+  build o ls.rows
 
 /-- `clustal.NewParser(r).IgnoreIdentical(i).Alphabet(a).Parse()` -/
 def parse (checksRowIndex : Bool) (o : POpts) (bs : Seq) : Outcome Aln :=
